@@ -18,11 +18,13 @@ func c16(r *core.Run) {
 	r.Explanation = "Static rules over the two registration handlers (rns.MsgRegister, rns.MsgRegisterName): the debit and the POL credit are one SSA value that depends on the TLD cost table and the requested years; bank errors propagate to a failing return; every reaching definition of the stored Names.Expires adds a base (current height, or the old expiry only under a live comparison); a found record owned by someone else is overwritten only behind an expired comparison. Decides the structural causes of 'charges the listed price and yields a live name for the term', not the numeric '>= Y years'."
 	r.Assumptions = []string{T1, T3, T4}
 	r.NotDecided = []string{"the numeric bound 'unexpired for at least Y years'", "exact price tiers (control dependence on name length)"}
+	r.Rule("C16/R6", "block-height arithmetic is dimensionally consistent: absolute heights (Ctx.BlockHeight and fields assigned from it) are compared only with absolute heights, intervals/offsets/parameters only with each other (point - point = span, point ± span = point), followed through helper calls with the dimensions of the actual arguments")
 	r.Rule("C16/R1", "registration: account->module debit and module->POL credit carry the same value, which depends on msg.Years and the TLD cost table; recipient is the constant POL account; bank errors propagate")
 	r.Rule("C16/R2", "every reaching definition of the stored Names.Expires is years*const plus a base: Ctx.BlockHeight, or Store(Names).Expires only on paths that passed a live comparison for that record")
 	r.Rule("C16/R4", "success implies the effect: every committing return of a registration has debited the registrant and written the name record")
 	r.Rule("C16/R5", "the name record loaded for the liveness/ownership decision and the name record written are keyed by the same terms (same normalisation of the requested name on both sides)")
 	r.Rule("C16/R3", "a found name owned by another account is overwritten only behind an expired comparison (same guard row as C08/R1 for registration)")
+	heightDimensions(r, "C16/R6", moduleFuncs(p, "rns"), 3)
 	hs, err := p.Handlers()
 	if err != nil {
 		r.Undecided("C16/R1", "handlers", "", err.Error())
